@@ -1372,6 +1372,9 @@ def planck_exitance(wave, temp, waveunit='nm', valueunit='wlam'):
     # and single precision or integer arrays are not raised to the fifth power
     # in their own type)
     wave = np.asarray(wave, dtype=float) * Unit(waveunit).to('meter')
+    # (the temperature too: next to a scalar wavelength, a vector of temperatures in
+    # single or half precision would set the precision of the whole expression)
+    temp = np.asarray(temp, dtype=float)
 
     # compute flux in W m^-2 sr^-1 m^-1
     flux = 2*np.pi*H*C**2/(wave**5*np.expm1(H*C/(wave*K*temp)))
@@ -1414,6 +1417,9 @@ def planck_radiance(wave, temp, waveunit='nm', valueunit='wlam'):
     # and single precision or integer arrays are not raised to the fifth power
     # in their own type)
     wave = np.asarray(wave, dtype=float) * Unit(waveunit).to('meter')
+    # (the temperature too: next to a scalar wavelength, a vector of temperatures in
+    # single or half precision would set the precision of the whole expression)
+    temp = np.asarray(temp, dtype=float)
 
     # compute flux in W m^-2 m^-1
     flux = 2*H*C**2/(wave**5*np.expm1(H*C/(wave*K*temp)))
